@@ -192,6 +192,67 @@ def units(tier):
 
 
 # checks whose proof units establish the callee contracts applied here (re-verified by this check, see main.dependency_units)
+# ----------------------------------------------------------------------------- bounded stand-in: history independence
+# The proof units decode one frame from a state in which nothing was decoded before; a decoder that keeps state outside its
+# arguments (a cache of decoded objects) fails their frame clause without an input to show.  This native enumeration looks
+# for an actual witness: every address byte x selector bit of 16- and 24-bit frames is decoded in four orders (each in a
+# forked process) and must give the same kind and number.  It can only add a witness, never an alarm of its own oracle:
+# the orders are compared with each other, not with a table.
+def _decode_order(order):
+    from dali import address as AD, frame as FR
+    frames = [(16, (b << 8) | lo) for b in range(256) for lo in (0x00, 0xFF)] + \
+             [(24, (b << 16) | lo) for b in range(256) for lo in (0x0000, 0xFE30, 0xFFFF)]
+    if order == "descending":
+        frames.reverse()
+    elif order == "odd-address-bytes-first":
+        frames.sort(key=lambda sv: (1 - ((sv[1] >> (sv[0] - 8)) & 1), sv))
+    elif order == "even-address-bytes-first":
+        frames.sort(key=lambda sv: ((sv[1] >> (sv[0] - 8)) & 1, sv))
+    res = {}
+    for size, v in frames:
+        out = []
+        for fn in (AD.from_frame, AD.instance_from_frame) if size == 24 else (AD.from_frame,):
+            try:
+                r = fn(FR.ForwardFrame(size, v))
+                out.append(None if r is None else (type(r).__name__, getattr(r, "address", None), getattr(r, "group", None),
+                                                   getattr(r, "value", None)))
+            except Exception as e:      # noqa: BLE001
+                out.append("raised " + type(e).__name__)
+        res[(size, v)] = tuple(out)
+    return order, res
+
+
+def extra_checks(tier, seed):
+    import multiprocessing as mp
+    import time
+    t0 = time.time()
+    orders = ["ascending", "descending", "odd-address-bytes-first", "even-address-bytes-first"]
+    with mp.get_context("fork").Pool(4, maxtasksperchild=1) as pool:
+        got = pool.map(_decode_order, orders, chunksize=1)
+    ref_order, ref = got[0]
+    diffs = []
+    n = 0
+    for order, res in got:
+        for k, v in res.items():
+            n += 1
+            if ref[k] != v:
+                diffs.append((k, ref[k], v, order))
+    diffs.sort(key=repr)
+    name = "C04/bounded/address-decode-does-not-depend-on-what-was-decoded-before"
+    if not diffs:
+        return [{"name": name, "status": "discharged", "cases": n, "kind": "bounded-native", "seconds": time.time() - t0,
+                 "detail": "every address byte x selector bit of 16- and 24-bit frames (and the instance byte of the latter), "
+                           "decoded in four orders in forked processes"}]
+    (size, v), a, b, order = diffs[0]
+    return [{"name": name, "status": "failed", "cases": n, "kind": "bounded-native", "seconds": time.time() - t0,
+             "detail": "Frame(%d, 0x%x) decodes to %r when frames are decoded in ascending order but to %r in the order '%s' "
+                       "(%d such frames)" % (size, v, a, b, order, len(diffs)),
+             "witness": {"frame": [size, v], "orders": ["ascending", order]},
+             "replay": {"how": "address.from_frame / instance_from_frame on the enumerated frames in the two orders named, "
+                               "each in a fresh process", "frame": [size, v], "ascending": repr(a), "other": repr(b),
+                        "order": order, "cases": len(diffs)}}]
+
+
 DEPENDENCIES = ['C05']
 
 META = {
